@@ -42,9 +42,10 @@ const (
 	KSpawn               // internal: ask for a child token
 	KExit                // internal: task finished
 	KNode                // internal: tag the task with a node number
+	KFatal               // the task hit a condition that would kill the real process (Go "fatal error")
 )
 
-var kindNames = [...]string{"enter", "step", "lock", "blocked", "yield", "net", "spawn", "exit", "node"}
+var kindNames = [...]string{"enter", "step", "lock", "blocked", "yield", "net", "spawn", "exit", "node", "fatal"}
 
 func (k Kind) String() string { return kindNames[k] }
 
@@ -103,6 +104,7 @@ type Options struct {
 	MaxFree    int      // upper bound of free bytecode steps granted per release (0 => none)
 	Replay     []Choice // if non-nil, follow this instead of the PRNG
 	MaxSteps   int      // cap on scheduling decisions (0 => 2,000,000)
+	Tick       time.Duration // fake-clock advance per scheduling decision (0 = time stands still while tasks run)
 	Horizon    time.Duration
 	BiasSites  []string                   // after a yield at one of these sites, always preempt (if another task is runnable)
 	KeepLog    bool                       // keep the textual event log (samples / replays)
@@ -118,6 +120,7 @@ type Result struct {
 	Switches    int // decisions that released a different task than the previous one
 	Tasks       int
 	Deadlock    string // non-empty: description of the stuck state
+	Fatal       string // non-empty: a task hit a Go "fatal error" condition (message + stack); the run stopped there
 	StepCap     bool
 	Log         []string
 	SimTime     time.Duration
@@ -328,6 +331,15 @@ func BeforeLock(site string) bool {
 	if l == nil {
 		return false
 	}
+	if l.s.opt.KeepLog && site == "" {
+		// (logging runs only: name the lock by its acquisition site)
+		if _, file, line, ok := runtime.Caller(2); ok {
+			if i := strings.LastIndex(file, "/internal/"); i >= 0 {
+				file = file[i+10:]
+			}
+			site = "@" + file + ":" + itoa(line)
+		}
+	}
 	l.yield(KLock, site)
 	return true
 }
@@ -343,6 +355,24 @@ func Blocked(site string) {
 		return
 	}
 	l.yield(KBlocked, site)
+}
+
+// Fatal is called by the shims where the real runtime would end the process with an
+// unrecoverable "fatal error" (for example unlocking an unlocked mutex). The run stops: the
+// calling task never returns, no other task is released again, Result.Fatal holds the message
+// and the stack of the offending call.
+//
+//go:norace
+func Fatal(msg string) {
+	l := me()
+	if l == nil {
+		return
+	}
+	buf := make([]byte, 8192)
+	n := runtime.Stack(buf, false)
+	raceDisable()
+	l.s.req <- &request{l: l, kind: KFatal, site: msg + "\n" + string(buf[:n])}
+	<-l.reply // never answered
 }
 
 // Progress tells the scheduler that blocked tasks may be able to proceed.
@@ -401,7 +431,7 @@ func Run(opt Options, main func()) (res Result) {
 		opt.MaxSteps = 2_000_000
 	}
 	if opt.Horizon == 0 {
-		opt.Horizon = 400 * 24 * time.Hour
+		opt.Horizon = 72 * time.Hour
 	}
 	s := &Sched{opt: opt, req: make(chan *request), start: time.Now(), mainProgress: time.Now()}
 	s.res.Sites = map[string]int{}
@@ -463,6 +493,11 @@ func (s *Sched) handle(r *request) (inPlace bool) {
 		}
 		s.tasks = append(s.tasks, l)
 		l.pending = r
+	case KFatal:
+		// the process is dead: record it; nothing runs any more (the task stays parked)
+		if s.res.Fatal == "" {
+			s.res.Fatal = r.site
+		}
 	case KExit:
 		l.done = true
 		l.pending = nil
@@ -523,10 +558,17 @@ func (s *Sched) logline(line string) {
 func (s *Sched) loop() {
 	for {
 		synctest.Wait()
+		if s.opt.Tick > 0 {
+			// simulated CPU time: the fake clock advances a little with every decision, so
+			// code that compares timestamps taken in different steps sees time pass. (Everyone
+			// is parked here; goroutines woken by the advance run to their next yield point.)
+			time.Sleep(s.opt.Tick)
+			synctest.Wait()
+		}
 		if s.drain() {
 			continue // a request was answered in place; that task is running again
 		}
-		if s.mainDone {
+		if s.mainDone || s.res.Fatal != "" {
 			return
 		}
 		if time.Since(s.mainProgress) > s.opt.Horizon {
